@@ -73,6 +73,7 @@ func c04Gen(rng *verifsim.RNG, idx int, tier string) *Plan {
 			p.Actions = append(p.Actions, Action{At: at, Kind: "http", Path: "/_/api/interfaces"})
 		}
 	}
+	maybeReinit(rng, p, n.Ifaces[rng.Intn(nif)].Name, nsSec, int64(horizon), 0.25)
 	if rng.Bool(0.2) {
 		// A forwarding read that fails right after a flip: whatever the daemon
 		// does then, it must not advertise the stale state.
